@@ -7,6 +7,7 @@ use lorawan_device::{async_device, nb_device, AppEui, AppKey, AppSKey, DevAddr, 
 use std::future::Future;
 use std::task::{Context, Poll, Waker};
 use verif_core::catch;
+use rand_core::RngCore;
 
 #[derive(Debug, Clone, Copy, PartialEq, Eq, Hash)]
 pub enum RegionId {
@@ -61,6 +62,9 @@ pub enum FrontKind {
     /// (nb / async + Class C, radio buffer 256, board (14, 0) only)
     NbQ1,
     AsyncQ1,
+    /// async + Class C built by `new_with_seed` / `new_with_seed_and_session`: the crate's own PRNG instead of
+    /// the scripted one (no RNG script, no draw budget), its default queue depth 1 (board (14, 0) only)
+    AsyncSeeded,
 }
 
 impl FrontKind {
@@ -75,6 +79,7 @@ impl FrontKind {
             FrontKind::NbBuf255 => "nb/buf255",
             FrontKind::NbQ1 => "nb/queue1",
             FrontKind::AsyncQ1 => "async+classC/queue1",
+            FrontKind::AsyncSeeded => "async+classC/seeded",
         }
     }
     pub fn from_name(s: &str) -> FrontKind {
@@ -87,6 +92,7 @@ impl FrontKind {
             "nb/buf255" => FrontKind::NbBuf255,
             "nb/queue1" => FrontKind::NbQ1,
             "async+classC/queue1" => FrontKind::AsyncQ1,
+            "async+classC/seeded" => FrontKind::AsyncSeeded,
             _ => FrontKind::Async,
         }
     }
@@ -106,10 +112,10 @@ impl FrontKind {
     }
     /// depth D of the device's downlink queue
     pub fn queue_depth(self) -> usize {
-        if matches!(self, FrontKind::NbQ1 | FrontKind::AsyncQ1) { 1 } else { 4 }
+        if matches!(self, FrontKind::NbQ1 | FrontKind::AsyncQ1 | FrontKind::AsyncSeeded) { 1 } else { 4 }
     }
     pub fn class_c(self) -> bool {
-        matches!(self, FrontKind::AsyncClassC | FrontKind::AsyncBuf64 | FrontKind::AsyncBuf255 | FrontKind::AsyncQ1)
+        matches!(self, FrontKind::AsyncClassC | FrontKind::AsyncBuf64 | FrontKind::AsyncBuf255 | FrontKind::AsyncQ1 | FrontKind::AsyncSeeded)
     }
 }
 
@@ -385,9 +391,25 @@ impl<const P: u8, const G: i8> async_device::radio::PhyRxTx for ARadio<P, G> {
     }
 }
 
-pub struct AsyncFront<const P: u8, const G: i8, const N: usize = 256, const D: usize = 4> {
-    dev: async_device::Device<ARadio<P, G>, ATimer, ScriptRng, N, D>,
+pub struct AsyncFront<const P: u8, const G: i8, const N: usize = 256, const D: usize = 4, RG: RngCore = ScriptRng> {
+    dev: async_device::Device<ARadio<P, G>, ATimer, RG, N, D>,
     env: Env,
+}
+
+impl<const P: u8, const G: i8, const N: usize> AsyncFront<P, G, N, 1, lorawan_device::Prng> {
+    /// the device built by the seed constructors (the crate's own PRNG)
+    pub fn new_seeded(cfg: &DevCfg, env: Env, session: Option<&Value>, seed: u64) -> Result<Self, String> {
+        let region = cfg.region_configuration();
+        let (radio, timer) = (ARadio::<P, G> { env: env.clone() }, ATimer { env: env.clone() });
+        let mut dev = match session {
+            Some(v) => async_device::Device::new_with_seed_and_session(region, radio, timer, seed, Some(serde_json::from_value(v.clone()).map_err(|e| e.to_string())?)),
+            None => async_device::Device::new_with_seed(region, radio, timer, seed),
+        };
+        if cfg.front.class_c() {
+            dev.enable_class_c();
+        }
+        Ok(AsyncFront { dev, env })
+    }
 }
 
 fn norm_async_err<E: std::fmt::Debug>(e: &async_device::Error<E>) -> String {
@@ -403,7 +425,11 @@ impl<const P: u8, const G: i8, const N: usize, const D: usize> AsyncFront<P, G, 
             Some(v) => Some(serde_json::from_value(v.clone()).map_err(|e| e.to_string())?),
             None => None,
         };
-        let mut dev = async_device::Device::new_with_session(cfg.region_configuration(), ARadio::<P, G> { env: env.clone() }, ATimer { env: env.clone() }, ScriptRng(env.clone()), session);
+        let (radio, timer) = (ARadio::<P, G> { env: env.clone() }, ATimer { env: env.clone() });
+        let mut dev = match session {
+            Some(s) => async_device::Device::new_with_session(cfg.region_configuration(), radio, timer, ScriptRng(env.clone()), Some(s)),
+            None => async_device::Device::new(cfg.region_configuration(), radio, timer, ScriptRng(env.clone())),
+        };
         if cfg.front.class_c() {
             dev.enable_class_c();
         }
@@ -411,7 +437,7 @@ impl<const P: u8, const G: i8, const N: usize, const D: usize> AsyncFront<P, G, 
     }
 }
 
-impl<const P: u8, const G: i8, const N: usize, const D: usize> Front for AsyncFront<P, G, N, D> {
+impl<const P: u8, const G: i8, const N: usize, const D: usize, RG: RngCore> Front for AsyncFront<P, G, N, D, RG> {
     fn env(&self) -> Env {
         self.env.clone()
     }
@@ -884,7 +910,11 @@ pub fn make_front(cfg: &DevCfg, env: Env, session: Option<&Value>) -> Result<Box
         (FrontKind::NbBuf255, (14, 0)) => return Ok(Box::new(NbFront::<14, 0, 255>::new(cfg, env, session)?) as Box<dyn Front>),
         (FrontKind::NbQ1, (14, 0)) => return Ok(Box::new(NbFront::<14, 0, 256, 1>::new(cfg, env, session)?) as Box<dyn Front>),
         (FrontKind::AsyncQ1, (14, 0)) => return Ok(Box::new(AsyncFront::<14, 0, 256, 1>::new(cfg, env, session)?) as Box<dyn Front>),
-        (FrontKind::AsyncBuf64 | FrontKind::AsyncBuf255 | FrontKind::NbBuf64 | FrontKind::NbBuf255 | FrontKind::NbQ1 | FrontKind::AsyncQ1, other) => return Err(format!("small radio buffers and depth-1 queues are only monomorphised for board (14, 0), not {other:?}")),
+        (FrontKind::AsyncSeeded, (14, 0)) => {
+            let seed = env.0.borrow().rng_tail.0;
+            return Ok(Box::new(AsyncFront::<14, 0, 256, 1, lorawan_device::Prng>::new_seeded(cfg, env, session, seed)?) as Box<dyn Front>);
+        }
+        (FrontKind::AsyncBuf64 | FrontKind::AsyncBuf255 | FrontKind::NbBuf64 | FrontKind::NbBuf255 | FrontKind::NbQ1 | FrontKind::AsyncQ1 | FrontKind::AsyncSeeded, other) => return Err(format!("small radio buffers and depth-1 queues are only monomorphised for board (14, 0), not {other:?}")),
         _ => {}
     }
     match cfg.board {
